@@ -106,8 +106,10 @@ def post_T2t(call):
         if not (0 <= t <= 1):
             ctx.violation('T2t/t-range/' + cls, 't outside [0,1]', {'T': T, 'k': k, 't': t})
         return True
-    if not (-8 * EPS / m['fr'][k] <= t <= 1 + 8 * EPS / m['fr'][k]) or not math.isfinite(t):
-        ctx.violation('T2t/t-range/' + cls, 't outside [0,1]', {'T': T, 'k': k, 't': t})
+    # a segment parameter is a number in [0, 1], exactly: 1 + 2e-16 is not one (Arc.length, Arc.point_to_t and
+    # cropped assert on it), however close it is
+    if not (0 <= t <= 1) or not math.isfinite(t):
+        ctx.violation('T2t/t-range/' + cls, 't outside [0,1]', {'T': T, 'k': k, 't': repr(t), 'path': gen.path_spec(p)})
         return True
     want = min(1.0, max(0.0, (T - lo) / m['fr'][k]))
     if not (abs(t - want) <= 16 * EPS / m['fr'][k] + 16 * EPS):
